@@ -47,9 +47,11 @@ def proof_stage(pid, tier, update_expected=False):
     """-> dict(ok, obligations, discharged, problems[list of str], theorems[list], checker_cmd)"""
     res = {"ok": True, "problems": [], "theorems": [], "obligations": 0, "discharged": 0}
     t0 = time.time()
-    target = "GwbVerif.Properties.%s" % pid
+    # every property module of this id: Properties/<id>.lean and companions Properties/<id><Suffix>.lean (e.g. C04Plume, C12Schema)
+    targets = sorted("GwbVerif.Properties." + f[:-5] for f in os.listdir(os.path.join(LEAN, "GwbVerif", "Properties")) if f.endswith(".lean") and re.match(r"^%s([A-Z][A-Za-z]*)?\.lean$" % pid, f))
+    target = " ".join(targets)
     res["checker_cmd"] = "cd lean && lake build %s && lake env lean Audit/%s.lean   (python3 tools/check.py %s)" % (target, pid, pid)
-    r = subprocess.run(["lake", "build", target], cwd=LEAN, stdout=subprocess.PIPE, stderr=subprocess.STDOUT, text=True)
+    r = subprocess.run(["lake", "build"] + targets, cwd=LEAN, stdout=subprocess.PIPE, stderr=subprocess.STDOUT, text=True)
     build_ok = r.returncode == 0
     if not build_ok:
         res["ok"] = False
@@ -117,11 +119,13 @@ def proof_stage(pid, tier, update_expected=False):
     if res["problems"]:
         res["ok"] = False
     if tier == "thorough" and build_ok:
-        r = subprocess.run(["lake", "env", "leanchecker", target], cwd=LEAN, stdout=subprocess.PIPE, stderr=subprocess.STDOUT, text=True)
-        res["leanchecker"] = "ok" if r.returncode == 0 else ("failed: " + r.stdout[-300:])
-        if r.returncode != 0:
-            res["ok"] = False
-            res["problems"].append("leanchecker rejected %s" % target)
+        res["leanchecker"] = "ok"
+        for tg in targets:          # one module per call
+            r = subprocess.run(["lake", "env", "leanchecker", tg], cwd=LEAN, stdout=subprocess.PIPE, stderr=subprocess.STDOUT, text=True)
+            if r.returncode != 0:
+                res["leanchecker"] = "failed: " + r.stdout[-300:]
+                res["ok"] = False
+                res["problems"].append("leanchecker rejected %s" % tg)
     res["wall_s"] = round(time.time() - t0, 1)
     return res
 
